@@ -150,7 +150,37 @@ def run(ctx):
             raise AnchorMissing("EvidentValue::%s" % nm)
         b = hir.last_expr(its[0]["body"])
         ctx.ob("K-ACCESSOR", "EvidentValue::%s -> %s" % (nm, target), b["k"] == "MethodCall" and b["method"] == target and field_path(b["recv"]) == ("self",), "")
-    ctx.undecided = ["`root(n)` of a valid number is valid (a floating-point law of powf; no static argument in reach)",
+    # ---- V-ROOT: shape of the n-th root (the numeric law itself stays undecided)
+    ctx.rule("V-ROOT", "structural necessary condition of `root(n) of a valid number is valid`: the blanket impl computes "
+             "Self::from(self.into().powf(1.0 / (n as FloatPrecision))) -- the exponent is the reciprocal of n converted DIRECTLY to the float type "
+             "(a narrowing integer cast such as `n as i32` wraps for large n and makes the exponent negative: seed c13-f), base and result pass "
+             "through into()/from() only")
+    rt = [it for p_, it in f.hir.items() if it["name"] == "root" and "impl_num_float" in p_]
+    if len(rt) != 1:
+        raise AnchorMissing("blanket EvidentNumber::root")
+    ctx.fn(rt[0])
+    b = hir.last_expr(rt[0]["body"])
+    ok = False
+    why = "body is not from(into(self).powf(1.0 / (n as float)))"
+    if b["k"] == "Call" and hir.callee_name(b) == "from" and len(b["args"]) == 1:
+        pw = strip(b["args"][0])
+        if pw["k"] == "MethodCall" and pw["method"] == "powf" and (pw.get("def") or "").endswith("f64>::powf") or (pw["k"] == "MethodCall" and pw["method"] == "powf" and "f32>::powf" in (pw.get("def") or "")):
+            base = strip(pw["recv"])
+            ex = strip(pw["args"][0])
+            while ex["k"] == "Paren" if False else False:
+                pass
+            base_ok = base["k"] == "MethodCall" and base["method"] == "into" and field_path(base["recv"]) == ("self",)
+            ex_ok = False
+            if ex["k"] == "Binary" and ex["op"] in ("/", "Div"):
+                l, r = strip(ex["l"]), strip(ex["r"])
+                one = l["k"] == "Lit" and float(l["lit"]["v"]) == 1.0
+                cast = r["k"] == "Cast" and field_path(r["e"]) == ("n",) and any(t in (r.get("ty") or "") for t in ("f64", "f32"))
+                ex_ok = one and cast
+                if not cast:
+                    why = "the exponent's denominator is not `n as <float>` (found %s of type %s)" % (r["k"], r.get("ty"))
+            ok = base_ok and ex_ok
+    ctx.ob("V-ROOT", "root(self, n) = from(self.into().powf(1.0 / (n as FloatPrecision)))", ok, why)
+    ctx.undecided = ["`root(n)` of a valid number is valid as a floating-point law of powf (only its shape -- V-ROOT -- is decided)",
                      "the behaviour of (0.0..=1.0).contains on -0.0/subnormals is std's (trusted: -0.0 >= 0.0 holds)"]
     ctx.assumptions = ["RangeInclusive<f64>::contains(x) = 0.0 <= x && x <= 1.0 (false for NaN)", "Result::unwrap panics iff Err"]
     ctx.trusted = ["rustc HIR", "pinned nar_dev_utils 0.42.3 source (sha256 asserted)", "python rule layer"]
